@@ -34,7 +34,7 @@ class Ctx:
         self.info = {}
 
     # -- building ---------------------------------------------------------------------------
-    def netlist(self, component, probes=(), ports=None, validate=True):
+    def netlist(self, component, probes=(), ports=None, validate=True, tie=()):
         t = time.time()
         from amaranth.hdl import Fragment
         try:
@@ -48,6 +48,8 @@ class Ctx:
         self.info["cells"] = len(nl.cells)
         self.info["state_bits"] = nl.n_state_bits()
         self.info["translate_s"] = round(time.time() - t, 3)
+        for sig in tie:
+            nl.tie_off(sig.as_value() if hasattr(sig, "as_value") else sig)
         if validate and self.cosim_cycles:
             t = time.time()
             n = cosim.validate(nl, nl.fragment, cycles=self.cosim_cycles, seed=self.seed)
